@@ -143,15 +143,17 @@ class CountMinSketch(FrequencySketch[T]):
         return seeds
 
     def _hash(self, item: T, row: int) -> int:
-        """Hash an item to a column index for a specific row."""
-        # Combine item hash with row-specific seed
-        item_hash = hash(item)
-        combined = item_hash ^ self._hash_seeds[row]
-        # Mask to 64 bits to avoid overflow in struct.pack
-        combined = combined & 0xFFFFFFFFFFFFFFFF
-        # Use another round of hashing for better distribution
+        """Hash an item to a column index for a specific row.
+
+        Like BloomFilter and HyperLogLog, the item enters through ``repr`` and
+        SHA-256 rather than the builtin ``hash()``: ``hash()`` of ``str`` and
+        ``bytes`` is salted per interpreter (PYTHONHASHSEED), which made the
+        sketch contents differ from one process to the next for the same
+        stream and seed.
+        """
         h = hashlib.sha256()
-        h.update(struct.pack(">Q", combined))
+        h.update(struct.pack(">Q", self._hash_seeds[row]))
+        h.update(repr(item).encode("utf-8"))
         return struct.unpack(">Q", h.digest()[:8])[0] % self._width
 
     @property
